@@ -195,7 +195,8 @@ Ninth round (blocks marked `x9`; run-time additions in ``lean/PkgModel/PyX9.lean
                regenerated rules, ``m[0]`` / ``m.group(0)`` of such a match ``PyX9.match_group0``; ``Token(…)`` (a dataclass of the module
                built from all its fields in order); ``raise self.m(…)`` (the call, then ``TypeError`` for a value that is no exception);
                ``raise ParserSyntaxError(…)`` evaluates its arguments; calls of the other methods stay the primitives of PyTok.lean, which
-               ``Src/Tokenizer.lean`` proves equal to the translated methods — ``STATE_GUARD`` is no longer consulted.  A generator behind
+               ``Src/Tokenizer.lean`` proves equal to the translated methods — ``STATE_GUARD`` is no longer consulted (``__init__`` alone keeps
+               a digest, ``X9_TOKENIZER_INIT_GUARD``: ``PyTok.new``; the class may define nothing else).  A generator behind
                ``@contextlib.contextmanager`` with one top-level bare ``yield`` is cut there: ``<f>__enter`` returns the local that is live
                across the ``yield``, ``<f>__exit`` takes it as first parameter (``<f>__with``: the pair around ``self.consume(body)``, for
                ``src.call``)
@@ -677,7 +678,11 @@ SELECTED += [
     ("Tokenizer.enclosing_tokens__exit", "packaging._tokenizer", "Tokenizer.enclosing_tokens"),
     ("Tokenizer.enclosing_tokens__with", "packaging._tokenizer", "Tokenizer.enclosing_tokens"),
 ]
-X9_TOKENIZER_TRANSLATED = True      # the `Tokenizer` methods are proof obligations of C07/C08/C09 (no digest guard)
+X9_TOKENIZER_TRANSLATED = True      # the `Tokenizer` methods are proof obligations of C07/C08/C09 (no digest guard on the class)
+# `Tokenizer(source, rules=…)` itself stays the primitive `PyTok.new`, while `__init__` has this source (sha256 over its ast); the
+# class may define nothing besides the constructor and the translated methods
+X9_TOKENIZER_INIT_GUARD = "055e2691dfc5cbdc716aff96e948bbc47cd5dcec7407a5da318a6ee09835936d"
+X9_TOKENIZER_METHODS = {"__init__", "check", "read", "expect", "consume", "raise_syntax_error", "enclosing_tokens"}
 X9_STATE_FIELDS = {"source": "PyX9.source", "next_token": "PyX9.next_token"}
 # x9: `parse_email` (C18).  A rewriting pass (`_X9MailRewrite`) brings the loop into the subset: the standard-library parser call is
 # an oracle call under the *source text of the call* (the message it returns is the value `obj "Message" …` of PyX7.lean), the
@@ -3249,7 +3254,15 @@ class Fn:
 
     def x3_state_guard(self):
         """the primitives of PyTok.lean mirror one text of the Tokenizer class"""
-        if X9_TOKENIZER_TRANSLATED:          # x9: the methods are translated and proved equal to the primitives
+        if X9_TOKENIZER_TRANSLATED:          # x9: the methods are translated and proved equal to the primitives;
+            cls = getattr(importlib.import_module(STATE_CLASS[0]), STATE_CLASS[1])
+            init = inspect.getattr_static(cls, "__init__", None)       # the constructor alone stays a primitive (`PyTok.new`)
+            if not inspect.isfunction(init) or _fn_digest(init) != X9_TOKENIZER_INIT_GUARD:
+                raise Unsupported(f"the source of {STATE_CLASS[1]}.__init__ is not the text `PyTok.new` mirrors")
+            extra = [k for k, v in vars(cls).items() if (inspect.isfunction(v) or isinstance(v, (property, staticmethod, classmethod)))
+                     and k not in X9_TOKENIZER_METHODS]
+            if extra:                        # a method the theorems do not cover (e.g. `position` turned into a property)
+                raise Unsupported(f"{STATE_CLASS[1]} defines {', '.join(sorted(extra))} besides the translated methods")
             return
         cls = getattr(importlib.import_module(STATE_CLASS[0]), STATE_CLASS[1])
         if _class_digest(cls) != STATE_GUARD:
